@@ -297,3 +297,12 @@ Definition svc_config_key_unrepaired (prefix : str) (status : list str) (strict 
 Definition s_kv_sep : str := bs "# --- ".
 Definition kv_text (pairs : list (str * str)) : str :=
   join (map (fun p => s_kv_sep ++ fst p ++ 10 :: trim_space (snd p)) pairs) [10; 10].
+
+(* watchKV as a whole: one listKV per round; a failed round sleeps and tries again without
+   pushing; a round that returns (a new index) pushes the text of the KV pairs it saw.  The
+   manual texts are delivered in observation order, one per successful round. *)
+Inductive kv_observation :=
+| KvErr
+| KvState (pairs : list (str * str)).
+Definition kv_deliveries (obs : list kv_observation) : list str :=
+  flat_map (fun o => match o with KvState p => [kv_text p] | KvErr => [] end) obs.
